@@ -36,6 +36,21 @@ func v12cSameJSON(a, b any) bool {
 	return false
 }
 
+// v12cEntry: an entry of kind k from a small domain (the per-type harnesses cover the value
+// ranges; this law is about the structure): negative and positive numbers of one or two digits,
+// decimals with and without fraction digits between -1.99 and 1.99.
+func v12cEntry(k int, tag string) *sdcpb.TypedValue {
+	switch k {
+	case 1:
+		return vInt(verifrt.IntRange(tag+"i", -99, 99))
+	case 2:
+		return vUint(uint64(verifrt.IntRange(tag+"u", 0, 99)))
+	case 4:
+		return vDec(verifrt.IntRange(tag+"d", -199, 199), uint32(2*verifrt.Choice(tag+"p", 2)))
+	}
+	return vKind(k, tag)
+}
+
 var v12cKindNames = []string{"string", "int", "uint", "bool", "decimal64", "ascii", "identityref"}
 
 // VerifC12LeafListElementwise: see the file comment.
@@ -44,7 +59,7 @@ func VerifC12LeafListElementwise() {
 	n := 1 + verifrt.Choice("entries", verifrt.Param("maxEntries", 2))
 	var el []*sdcpb.TypedValue
 	for i := 0; i < n; i++ {
-		el = append(el, vKind(k, "e"+string(rune('0'+i))))
+		el = append(el, v12cEntry(k, "e"+string(rune('0'+i))))
 	}
 	ll := vLL(el...)
 	pfx := "C12-leaflist-of-" + v12cKindNames[k] + "/"
